@@ -84,6 +84,8 @@ func Main() {
 		os.Exit(workMain(os.Args[2:]))
 	case "replay":
 		os.Exit(replayMain(os.Args[2:]))
+	case "realop":
+		os.Exit(realOpMain())
 	case "props":
 		var ids []string
 		for id := range props {
@@ -96,6 +98,9 @@ func Main() {
 	fmt.Fprintln(os.Stderr, "unknown subcommand", os.Args[1])
 	os.Exit(2)
 }
+
+// RewrittenLibrary reports whether this binary links the simgen-rewritten library.
+func RewrittenLibrary() bool { return len(vsim.ProcsSites) > 0 }
 
 func envSeed() uint64 {
 	if s := os.Getenv("VERIF_SEED"); s != "" {
